@@ -46,6 +46,10 @@ inductive Instr where
   | buildPorts                          -- … service / portType elements via the two dicts
   | buildPublish                        -- … self.__wsdl = etree.tostring(root)
   | respond (r : Reg)                   -- return [r]
+  | tryEnter (handler : Nat)            -- `try:` … an exception raised below continues at `handler`
+  | tryLeave                            -- end of the `try` body
+  | respondErr                          -- `return [HTTP_500]` in the `except` clause
+  | reraise                             -- end of a `finally` that was entered by an exception
   | opaque                              -- a statement touching the shared names that the extractor
                                         -- does not understand (makes every skeleton test fail)
   deriving DecidableEq, Repr
@@ -58,14 +62,40 @@ def Instr.shared : Instr → Bool
   | .buildBegin | .buildPorts | .buildPublish => true
   | _ => false
 
+/-- how an execution of `build_interface_document` ends -/
+inductive Fail where
+  | ok
+  | early   -- raises before it touched anything (e.g. in `build_schema_nodes`)
+  | late    -- raises after the service / portType elements were created, before `__wsdl` is set
+            -- (e.g. a `wsdl_document_built` listener)
+  deriving DecidableEq, Repr
+
+/-- what the handler returns -/
+inductive Ans where
+  | doc (d : Option Doc)   -- 200 and the document
+  | error                  -- 500, the `except` clause answered
+  | crash                  -- the exception left the handler
+  deriving DecidableEq, Repr
+
+/-- configuration of a run: `resets` = `build_interface_document` empties its two element dicts
+    first (fact, read from the source); `fail k` = outcome of the k-th build (an adversary:
+    every theorem quantifies over it) -/
+structure Cfg where
+  resets : Bool
+  fail : Nat → Fail := fun _ => .ok
+
 structure Local where
   pc : Nat := 0
   w : Option Doc := none
   t : Option Doc := none
   /-- the tree this thread is building has its portType/service elements -/
   mine : Bool := false
-  /-- `some d` once the handler has returned `[d]` -/
-  resp : Option (Option Doc) := none
+  /-- where an exception continues (innermost enclosing `try`) -/
+  handler : Option Nat := none
+  /-- outcome chosen for the build this thread is executing -/
+  failing : Fail := .ok
+  /-- `some a` once the handler has returned -/
+  resp : Option Ans := none
   deriving DecidableEq, Repr
 
 def Local.get (l : Local) : Reg → Option Doc
@@ -85,8 +115,10 @@ structure State where
   lock : Option Nat := none
   /-- `port_type_dict` / `service_elt_dict` hold elements of some tree -/
   filled : Bool := false
-  /-- executions of `build_interface_document` so far -/
+  /-- executions of `build_interface_document` started so far -/
   builds : Nat := 0
+  /-- … that completed (published a document) -/
+  succ : Nat := 0
   loc : Nat → Local := fun _ => {}
 
 def State.setLoc (s : State) (i : Nat) (l : Local) : State :=
@@ -96,9 +128,14 @@ def State.setLoc (s : State) (i : Nat) (l : Local) : State :=
     nothing is built yet) into `_wsdl`; every thread is at the top of the handler -/
 def init : State := {}
 
-/-- one instruction of thread `i`.  `resets` = `build_interface_document` empties the two element
-    dicts before it starts (fact, read from the source). -/
-def step (resets : Bool) (p : Prog) (s : State) (i : Nat) : State :=
+/-- an exception in thread `i`: continue at the enclosing handler, or leave the WSGI callable -/
+def raise (p : Prog) (s : State) (i : Nat) (l : Local) : State :=
+  match l.handler with
+  | some h => s.setLoc i { l with pc := h, handler := none }
+  | none => s.setLoc i { l with resp := some .crash, pc := p.length }
+
+/-- one instruction of thread `i` -/
+def step (c : Cfg) (p : Prog) (s : State) (i : Nat) : State :=
   let l := s.loc i
   match p[l.pc]? with
   | none => s
@@ -117,21 +154,29 @@ def step (resets : Bool) (p : Prog) (s : State) (i : Nat) : State :=
       | some _ => s                                   -- blocked: the step is a skip
     | .release => { s with lock := none }.setLoc i { l with pc := l.pc + 1 }
     | .buildBegin =>
-      { s with builds := s.builds + 1, filled := if resets then false else s.filled }.setLoc i
-        { l with mine := false, pc := l.pc + 1 }
+      let f := c.fail s.builds
+      let s' := { s with builds := s.builds + 1, filled := if c.resets then false else s.filled }
+      if f = .early then raise p s' i { l with mine := false, failing := f }
+      else s'.setLoc i { l with mine := false, failing := f, pc := l.pc + 1 }
     | .buildPorts =>
       -- `_get_or_create_*`: an element already in the dict is reused (it hangs in the old tree)
       if s.filled then s.setLoc i { l with pc := l.pc + 1 }
       else { s with filled := true }.setLoc i { l with mine := true, pc := l.pc + 1 }
     | .buildPublish =>
-      { s with pub := some (if l.mine then .whole else .truncated) }.setLoc i { l with pc := l.pc + 1 }
-    | .respond r => s.setLoc i { l with resp := some (l.get r), pc := p.length }
+      if l.failing = .late then raise p s i l
+      else { s with pub := some (if l.mine then .whole else .truncated), succ := s.succ + 1 }.setLoc i
+        { l with pc := l.pc + 1 }
+    | .respond r => s.setLoc i { l with resp := some (.doc (l.get r)), pc := p.length }
+    | .tryEnter h => s.setLoc i { l with handler := some h, pc := l.pc + 1 }
+    | .tryLeave => s.setLoc i { l with handler := none, pc := l.pc + 1 }
+    | .respondErr => s.setLoc i { l with resp := some .error, pc := p.length }
+    | .reraise => s.setLoc i { l with resp := some .crash, pc := p.length }
     | .opaque => s.setLoc i { l with pc := l.pc + 1 }
 
 /-- run a schedule (any list of thread ids) -/
-def run (resets : Bool) (p : Prog) : State → List Nat → State
+def run (c : Cfg) (p : Prog) : State → List Nat → State
   | s, [] => s
-  | s, i :: rest => run resets p (step resets p s i) rest
+  | s, i :: rest => run c p (step c p s i) rest
 
 /-! ### macro steps: what one baton hand-over of the real scheduler executes
 
@@ -144,9 +189,9 @@ def nextIsLocal (p : Prog) (s : State) (i : Nat) : Bool :=
   | some ins => !ins.shared
   | none => false
 
-def localRun (resets : Bool) (p : Prog) : Nat → State → Nat → State
+def localRun (c : Cfg) (p : Prog) : Nat → State → Nat → State
   | 0, s, _ => s
-  | fuel + 1, s, i => if nextIsLocal p s i then localRun resets p fuel (step resets p s i) i else s
+  | fuel + 1, s, i => if nextIsLocal p s i then localRun c p fuel (step c p s i) i else s
 
 /-- `true` when thread `i` cannot move: finished, or waiting for a held lock -/
 def stuck (p : Prog) (s : State) (i : Nat) : Bool :=
@@ -155,12 +200,12 @@ def stuck (p : Prog) (s : State) (i : Nat) : Bool :=
   | some .acquire => s.lock.isSome
   | some _ => false
 
-def macroStep (resets : Bool) (p : Prog) (s : State) (i : Nat) : State :=
-  localRun resets p p.length (step resets p (localRun resets p p.length s i) i) i
+def macroStep (c : Cfg) (p : Prog) (s : State) (i : Nat) : State :=
+  localRun c p p.length (step c p (localRun c p p.length s i) i) i
 
-def runMacro (resets : Bool) (p : Prog) : State → List Nat → State
+def runMacro (c : Cfg) (p : Prog) : State → List Nat → State
   | s, [] => s
-  | s, i :: rest => runMacro resets p (macroStep resets p s i) rest
+  | s, i :: rest => runMacro c p (macroStep c p s i) rest
 
 /-! ### the two skeletons the theorems talk about -/
 
@@ -173,18 +218,32 @@ def expectedSkeleton : Prog :=
     .jmpIfNone .t 5,      -- 3       if wsdl is not None:
     .storeCache .t,       -- 4           self._wsdl = wsdl
     .loadCache .w,        -- 5   ctx.transport.wsdl = self._wsdl
-    .jmpIfSome .w 17,     -- 6   if ctx.transport.wsdl is None:
-    .acquire,             -- 7       self._mtx_build_interface_document.acquire()
-    .loadCache .w,        -- 8       ctx.transport.wsdl = self._wsdl
-    .jmpIfSome .w 16,     -- 9       if ctx.transport.wsdl is None:
-    .buildBegin,          -- 10          self.doc.wsdl11.build_interface_document(url)
-    .buildPorts,          -- 11
-    .buildPublish,        -- 12
-    .loadPub .t,          -- 13          ctx.transport.wsdl = self._wsdl = …get_interface_document()
-    .mov .w .t,           -- 14
-    .storeCache .t,       -- 15
-    .release,             -- 16      finally: ….release()
-    .respond .w ]         -- 17  return [ctx.transport.wsdl]
+    .jmpIfSome .w 22,     -- 6   if ctx.transport.wsdl is None:
+    .tryEnter 20,         -- 7       try:
+    .acquire,             -- 8           self._mtx_build_interface_document.acquire()
+    .loadCache .w,        -- 9           ctx.transport.wsdl = self._wsdl
+    .jmpIfSome .w 17,     -- 10          if ctx.transport.wsdl is None:
+    .buildBegin,          -- 11              self.doc.wsdl11.build_interface_document(url)
+    .buildPorts,          -- 12
+    .buildPublish,        -- 13
+    .loadPub .t,          -- 14              ctx.transport.wsdl = self._wsdl = …get_interface_document()
+    .mov .w .t,           -- 15
+    .storeCache .t,       -- 16
+    .tryLeave,            -- 17
+    .release,             -- 18      finally: ….release()            (normal exit)
+    .jmp 22,              -- 19
+    .release,             -- 20      except Exception: … finally: ….release()   (exit through the handler)
+    .respondErr,          -- 21          return [HTTP_500]
+    .respond .w ]         -- 22  return [ctx.transport.wsdl]
+
+/-- the same handler with the lock released in an `else:` clause instead of `finally:`: the exit
+    through the `except` clause keeps the lock -/
+def elseReleaseSkeleton : Prog :=
+  [ .loadCache .t, .jmpIfSome .t 5, .loadPub .t, .jmpIfNone .t 5, .storeCache .t, .loadCache .w,
+    .jmpIfSome .w 21, .tryEnter 20, .acquire, .loadCache .w, .jmpIfSome .w 17, .buildBegin, .buildPorts,
+    .buildPublish, .loadPub .t, .mov .w .t, .storeCache .t, .tryLeave, .release, .jmp 21,
+    .respondErr,          -- 20      except Exception: … return [HTTP_500]      (lock still held)
+    .respond .w ]         -- 21
 
 /-- the handler as pinned: `if self._wsdl is None: self._wsdl = …get_interface_document()`
     writes whatever it read, `None` included, back into the cache without the lock -/
@@ -208,6 +267,9 @@ def pinnedSkeleton : Prog :=
     .respond .w ]         -- 16
 
 /-- thread `i` has answered -/
-def State.responded (s : State) (i : Nat) : Option (Option Doc) := (s.loc i).resp
+def State.responded (s : State) (i : Nat) : Option Ans := (s.loc i).resp
+
+/-- no injected failure -/
+def noFail (resets : Bool) : Cfg := { resets := resets }
 
 end SpyneModel.Conc
